@@ -63,6 +63,10 @@ func parse(s string) (*Point, ref.Pt, string) {
 			return new(Point).Add(a, b), aa.Add(ba), rest[1:]
 		}
 		return new(Point).Subtract(a, b), aa.Sub(ba), rest[1:]
+	case strings.HasPrefix(s, "Fail("):
+		// object history: the point was the receiver of a series of REJECTED decodes; it must still be the same operand
+		a, aa, rest := parse(s[5:])
+		return afterFailedDecodes(a, aa), aa, rest[1:]
 	case strings.HasPrefix(s, "Dbl("), strings.HasPrefix(s, "Neg("):
 		a, aa, rest := parse(s[4:])
 		if s[0] == 'D' {
@@ -71,6 +75,48 @@ func parse(s string) (*Point, ref.Pt, string) {
 		return new(Point).Negate(a), aa.Neg(), rest[1:]
 	}
 	panic("bad recipe: " + s)
+}
+
+// failing encodings (every one is rejected by a strict SEC 1 decoder): compressed x with x^3+7 a non-residue (both
+// prefixes), uncompressed with y off by one, x >= p, a hybrid prefix, wrong lengths, the empty string
+var failEncs = func() [][]byte {
+	x := big.NewInt(1)
+	for {
+		if _, ok := ref.LiftX(x, 0); !ok {
+			break
+		}
+		x.Add(x, big.NewInt(1))
+	}
+	g := ref.G()
+	bad := append([]byte{4}, append(ref.B32(g.X), ref.B32(new(big.Int).Add(g.Y, big.NewInt(1)))...)...)
+	return [][]byte{
+		append([]byte{2}, ref.B32(x)...), append([]byte{3}, ref.B32(x)...), bad,
+		append([]byte{2}, ref.B32(ref.P)...), append([]byte{6}, bad[1:]...), bad[:64], append([]byte{2}, ref.B32(g.X)[:31]...), {}, {0, 0},
+	}
+}()
+
+func afterFailedDecodes(a *Point, abs ref.Pt) *Point {
+	for _, e := range failEncs {
+		var err error
+		switch {
+		case len(e) == 33:
+			_, err = a.SetCompressedBytes(e)
+			if err != nil {
+				_, err = a.SetBytes(e)
+			}
+		case len(e) == 65:
+			_, err = a.SetUncompressedBytes(e)
+			if err != nil {
+				_, err = a.SetBytes(e)
+			}
+		default:
+			_, err = a.SetBytes(e)
+		}
+		if err == nil { // an invalid encoding was accepted: that is C06's finding, not a group-law one; keep this state well-defined
+			return lib.MkPT(abs)
+		}
+	}
+	return a
 }
 
 // ---------------------------------------------------------------- operations
@@ -477,7 +523,11 @@ func main() {
 	var states []St
 	for _, p := range pts {
 		for _, z := range zs {
-			states = append(states, rep(p.P, z.V))
+			st := rep(p.P, z.V)
+			if len(states)%4 == 1 { // every 4th state carries an object history (receiver of rejected decodes)
+				st.desc = "Fail(" + st.desc + ")"
+			}
+			states = append(states, st)
 		}
 	}
 	R.Bound("points", len(pts))
